@@ -38,7 +38,7 @@ CLAIMED["C18"] = (
 
 _CL_NOTE = ("the model receives the implementation's own distance matrix (exact rationals) and recorded k-medoids proposals; the theorems' "
             "hypotheses on that matrix (zero diagonal, positive off-diagonal) are evaluated in Coq per case (valid_matrix, proved sound); "
-            "NumPy argmax/masking/unique and the metric kernels are modelled not verified (kernels: C13); md.rmsd/Trajectory inputs not exercised.")
+            "NumPy argmax/masking/unique and the metric kernels are modelled not verified (kernels: C13); md.Trajectory inputs are exercised with a table metric keyed on frame coordinates (md.rmsd itself is mdtraj's and is trusted).")
 CLAIMED["C01"] = (
     "Coq proof by invariant over k-centers / nearest-centre / PAM state machines (unbounded n, k, sweeps) + differential correspondence evaluated in Coq on the implementation's distance matrix and recorded random proposals",
     "Theorems in coq/Props/C01.v (closed under the global context): the consistency invariant (centres distinct frames, labels in range, distance = metric distance to the assigned centre, no centre strictly closer, centre frames carry their own label at distance 0) holds after k-centers (cold/warm, count and/or radius, with the triangle shortcut), after nearest-centre assignment, after every accepted or rejected PAM proposal (any proposal frame), hence after any k-medoids / k-hybrid run.",
